@@ -124,6 +124,37 @@ func rootOf(v ssa.Value) ssa.Value {
 	}
 }
 
+// freshSlice: every definition the slice value can come from is a make in this function, nil, or an
+// append to / a reslice of such a value: its backing array did not exist when the function was entered.
+func freshSlice(v ssa.Value, seen map[ssa.Value]bool) bool {
+	if seen[v] {
+		return true
+	}
+	seen[v] = true
+	switch x := v.(type) {
+	case *ssa.MakeSlice:
+		return true
+	case *ssa.Const:
+		return x.Value == nil
+	case *ssa.Phi:
+		for _, e := range x.Edges {
+			if !freshSlice(e, seen) {
+				return false
+			}
+		}
+		return true
+	case *ssa.Slice:
+		if _, isSlice := x.X.Type().Underlying().(*types.Slice); isSlice {
+			return freshSlice(x.X, seen)
+		}
+	case *ssa.Call:
+		if bi, ok := x.Call.Value.(*ssa.Builtin); ok && bi.Name() == "append" && len(x.Call.Args) > 0 {
+			return freshSlice(x.Call.Args[0], seen)
+		}
+	}
+	return false
+}
+
 func isFreshBase(v ssa.Value) bool {
 	switch x := rootOf(v).(type) {
 	case *ssa.Alloc:
@@ -402,7 +433,7 @@ func (e *Engine) callMods(f *ssa.Function, call ssa.CallInstruction, m *ModSet, 
 			if st, ok := c.Args[0].Type().Underlying().(*types.Slice); ok {
 				n, _ := e.elemArr(st.Elem())
 				lvl := modOld
-				if _, fresh := c.Args[0].(*ssa.MakeSlice); fresh {
+				if freshSlice(c.Args[0], map[ssa.Value]bool{}) {
 					lvl = modFresh // copying into a slice made by this very function
 				}
 				m.add(n, lvl)
@@ -522,11 +553,21 @@ func (e *Engine) libMods(callee *ssa.Function, c *ssa.CallCommon, m *ModSet) {
 	case name == "(*scanner.Scanner).Next" || name == "(*scanner.Scanner).Init":
 		m.add("SC:pos", modOld)
 		m.add("SC:src", modOld)
+	case strings.HasPrefix(name, "(*strings.Builder).") || strings.HasPrefix(name, "(*bytes.Buffer)."):
+		switch name[strings.LastIndex(name, ".")+1:] {
+		case "String", "Len", "Cap", "Grow":
+		default:
+			lvl := modOld
+			if al, ok := rootOf(c.Args[0]).(*ssa.Alloc); ok && al.Parent() != nil {
+				lvl = modFresh // a builder declared in this very function
+			}
+			m.add("GB:hasnl", lvl)
+		}
 	case name == "sort.Strings" || name == "sort.Ints":
 		n, _ := e.elemArr(c.Args[0].Type().Underlying().(*types.Slice).Elem())
 		lvl := modOld
-		if _, fresh := c.Args[0].(*ssa.MakeSlice); fresh {
-			lvl = modFresh // sorting a slice made by this very function
+		if freshSlice(c.Args[0], map[ssa.Value]bool{}) {
+			lvl = modFresh // sorting a slice made (and only appended to) by this very function
 		}
 		m.add(n, lvl)
 	case name == "sort.Sort" || name == "sort.Stable":
